@@ -31,6 +31,8 @@ func ParseRaceReport(text string) (what string, sig map[string]string, harness b
 		op          string
 		top, repo   string
 		harnessTop  bool
+		anyHarness  bool // some frame of the stack is the simulator's
+		cacheOracle bool // ... namely the cache-fingerprint oracle reading a cached object
 		repoFrameAt int
 	}
 	var accs []access
@@ -71,6 +73,12 @@ func ParseRaceReport(text string) (what string, sig map[string]string, harness b
 			if a.repo == "" && strings.HasPrefix(fn, "metacontroller/") {
 				a.repo = fn
 			}
+			if strings.HasPrefix(fn, "dst/") {
+				a.anyHarness = true
+				if strings.Contains(fn, "CacheFingerprints") || strings.HasSuffix(fn, ".treeHash") {
+					a.cacheOracle = true
+				}
+			}
 		}
 		accs = append(accs, a)
 	}
@@ -89,7 +97,16 @@ func ParseRaceReport(text string) (what string, sig map[string]string, harness b
 		na, nb = nb, na
 	}
 	sig = map[string]string{"a": na, "b": nb}
-	harness = a.harnessTop || b.harnessTop || (a.repo == "" && b.repo == "")
+	harness = a.anyHarness || b.anyHarness || (a.repo == "" && b.repo == "")
+	// one exception: the cache oracle only reads objects held by the shared informer
+	// caches; if such a read is unordered with a write made by metacontroller code,
+	// that code wrote into a cached object (which nothing may do)
+	for _, p := range [][2]access{{a, b}, {b, a}} {
+		if p[0].cacheOracle && !p[1].anyHarness && p[1].repo != "" && strings.HasPrefix(p[1].op, "write") {
+			harness = false
+			sig = map[string]string{"a": "read of a cached object by the cache oracle", "b": name(p[1])}
+		}
+	}
 	what = fmt.Sprintf("data race: %s (top frame %s) / %s (top frame %s)", name(a), a.top, name(b), b.top)
 	return what, sig, harness
 }
